@@ -153,3 +153,22 @@ def lower_generator(P: Program, f: FuncInfo, gen: ast.AST, env: Dict[str, Any]) 
     if not out:
         raise AnalysisError(f"registry: custom generator `{src(gen)[:40]}` produced no SQL under evaluation")
     return out
+
+
+def registry_sql(entries: List[RegEntry], token: str, *operands: Any) -> str:
+    """What OperatorRegistry.sql(token, *operands) returns, computed from the extracted entries: the template registered for that
+    number of operands, else the token's default (arity-0 / custom) template formatted with ALL operands - str.format ignores
+    surplus arguments, exactly as the repository's SQLOperator.sql does."""
+    cands = [e for e in entries if e.token == token and not e.kind.startswith("typed")]
+    if not cands:
+        return f"{token.upper()}({', '.join(map(str, operands))})"
+    n = len(operands)
+    for e in cands:
+        if n in e.templates:
+            return e.templates[n].format(*operands)
+    e = cands[-1]
+    t = e.templates[max(e.templates)]
+    try:
+        return t.format(*operands)
+    except IndexError:
+        raise AnalysisError(f"registry: template of {token} needs more operands than {n}: `{t}`")
